@@ -16,11 +16,11 @@ NA_PURE = {
 SIM = "deterministic simulation with fault injection: "
 CHECKS = {
     "C01": (True, "exploration",
-            "Seeded search over writer programs (prototypes over all record types and widths 0..64 bits, blobs/images/other clouds placing the section at every 4-byte residue modulo 1020, packet capacity capped by a knob or left at ~64 KiB) executed on E57Writer over a simulated device with seeded short writes, reopened through E57Reader on a device with seeded short reads; raw iteration compared bit-exactly with a scene model. Sampling, not proof.",
+            "Seeded search over writer programs (prototypes over all record types and widths 0..64 bits, blobs/images/other clouds placing the section at every 4-byte residue modulo 1020, packet capacity capped by a knob or left at ~64 KiB) executed on E57Writer over a simulated device with seeded short writes, reopened through E57Reader on a device with seeded short reads; raw iteration compared bit-exactly with a scene model. Sampling, not proof. Every 64th run adds a cloud of 40 000..140 000 points with 3-5 different odd bit widths written at the library's own packet capacity.",
             "Trusts the scene model and SimDisk; device fault-free apart from short transfers; prototypes follow the documented rules with at least one sized record.",
             SIM + "seeded API-call programs x section placement x device chunk schedules x packet-capacity knob vs. scene model", "DESIGN.md §5 C01"),
     "C02": (True, "exploration",
-            "Every image finalized in the C01/C06 program space (metadata strings from the full XML token pool) is judged by an independent codec (refcodec) written from the format description and calibrated at start-up on 19 foreign files: fsck rules, then decode == points, blobs and metadata handed to the writer.",
+            "Every image finalized in the C01/C06 program space (metadata strings from the full XML token pool) is judged by an independent codec (refcodec) written from the format description and calibrated at start-up on 19 foreign files: fsck rules, then decode == points, blobs and metadata handed to the writer. Every 512th program has its coordinate metadata solved (CRC-32C is affine over GF(2)) so that a page version reaches the device with the checksum of its previous version, or 0 / 0xFFFFFFFF for a new page.",
             "Trusts refcodec (own page layer, bitwise CRC-32C, own XML parser; roxmltree as second opinion) and its calibration on E57RefImpl/libE57Format/las2e57 files.",
             SIM + "seeded writer programs on a simulated device, judged by an independent fsck/decoder", "DESIGN.md §5 C02"),
     "C06": (True, "exploration",
@@ -36,11 +36,11 @@ CHECKS = {
             "Assumes writes reach the device in issue order and a torn write leaves a byte prefix.",
             SIM + "crash-point enumeration over the device write log (prefixes x torn cuts) plus drop/transformer/device-error points, reader as judge", "DESIGN.md §5 C15"),
     "C16": (True, "fault_enumeration",
-            "Per sampled program the single-fault space is enumerated completely: for every operation of the fault-free device/pipe operation sequence of the writer program or of the read-everything reader session, and every flavour applicable to its kind (hard error of kind Other and of six other kinds, short-then-error, EINTR, write returning 0, disk full), the session is re-run with exactly that fault - writer sessions three times: with a caller that stops at the failed call, one that gives up the item and goes on to the top-level finalize, and one that calls a failed finalize a second time; the API call in progress must return Err (EINTR may be absorbed with identical result, Drop swallows), finalize Ok implies the fault-free image, flushed (for callers that went on after a failure: a file that opens and returns everything the successful calls handed in); reader operations that met no failing device operation equal the fault-free session. Plus chunking mode: K transfer schedules must give byte-identical images and identical read results.",
+            "Per sampled program the single-fault space is enumerated completely: for every operation of the fault-free device/pipe operation sequence of the writer program or of the read-everything reader session, and every flavour applicable to its kind (hard error of kind Other and of six other kinds, short-then-error, EINTR, write returning 0, disk full), the session is re-run with exactly that fault - writer sessions three times: with a caller that stops at the failed call, one that gives up the item and goes on to the top-level finalize, and one that calls a failed finalize a second time; the API call in progress must return Err (EINTR may be absorbed with identical result, Drop swallows), finalize Ok implies the fault-free image, flushed (for callers that went on after a failure: a file that opens and returns everything the successful calls handed in); reader operations that met no failing device operation equal the fault-free session; some reader sessions cover payloads of 64 KiB or more; iterators are polled again after their first error. Plus chunking mode: K transfer schedules must give byte-identical images and identical read results.",
             "What a writer offers after a failed call is judged only through the top-level finalize; EINTR only on transfers; errors in Drop are swallowed by design.",
             SIM + "exhaustive single-fault injection over the recorded device-operation sequence, plus schedule-independence under seeded short transfers", "DESIGN.md §5 C16"),
     "C03": (True, "exploration",
-            "Seeded scenes encoded by an independent, specification-driven producer (refcodec) under a seeded layout schedule (ragged per-stream packetisation with values straddling packets and empty streams, index/ignored packets before/between/after data packets, shuffled and padded sections, omitted optional type attributes, XML lexical variants); the producer's output must pass refcodec's own fsck and decode to the scene; the crate's reader on a simulated device with seeded short reads must return exactly the encoded values, counts and metadata. Run indices 0..19 read the bundled E57RefImpl / libE57Format / las2e57 files with the crate and with refcodec and compare.",
+            "Seeded scenes encoded by an independent, specification-driven producer (refcodec) under a seeded layout schedule (ragged per-stream packetisation with values straddling packets and empty streams, index/ignored packets before/between/after data packets, shuffled and padded sections, omitted optional type attributes, XML lexical variants); the producer's output must pass refcodec's own fsck and decode to the scene; the crate's reader on a simulated device with seeded short reads must return exactly the encoded values, counts and metadata. Run indices 0..19 read the bundled E57RefImpl / libE57Format / las2e57 files with the crate and with refcodec and compare. The producer also emits ignored packets up to 65536 bytes and index packets of higher levels over earlier index packets.",
             "Legal layout space is conservative (choices supported by the format description and by libE57Format-written files). Known finding F13b (all-constant prototype) listed.",
             SIM + "foreign-producer packetisation/interleaving schedule x device chunk schedules vs. scene model", "DESIGN.md §5 C03"),
     "C05": (True, "exploration",
@@ -48,11 +48,11 @@ CHECKS = {
             "Trusts the reference view; normalised values judged by (v-min)/(max-min) clamped, only for finite values and non-degenerate same-kind ranges (C13's corner cases stay n/a); direction-only conversions accept either documented reading; what the reader does with a point whose stored state lies outside its set is not judged.",
             SIM + "producer layout schedule x 2^6 option configurations x page damage vs. reference view and raw iterator", "DESIGN.md §5 C05"),
     "C07": (True, "fault_enumeration",
-            "Every single-bit flip of every page of small files is enumerated (4 files quick, 24 thorough) and judged with all read entry points; sampled 1-3 bit flips, bursts <= 32 bits, overwrites, checksum-only and header-field damage and near-miss checksums (little-endian CRC-32C, complement, IEEE CRC-32) are applied before open, between two operations of a reader history, or at a device-operation instant inside a call; hand-made files with page sizes other than 1024 go through the static validate_crc/raw_xml; every operation must fail or equal the pristine result, validate_crc fails iff a page is altered; the whole batch is re-executed by a second harness build with the crc32c feature and per-run digests must agree.",
+            "Every single-bit flip of every page of small files is enumerated (4 files quick, 24 thorough) and judged with all read entry points; sampled 1-3 bit flips, bursts <= 32 bits, overwrites, checksum-only and header-field damage and near-miss checksums (little-endian CRC-32C, complement, IEEE CRC-32) are applied before open, between two operations of a reader history, or at a device-operation instant inside a call; hand-made files with page sizes other than 1024 go through the static validate_crc/raw_xml; files beyond 1 MiB with an altered page more than 1030 pages in; iterators are polled again after their first error; every operation must fail or equal the pristine result, validate_crc fails iff a page is altered; the whole batch is re-executed by a second harness build with the crc32c feature and per-run digests must agree.",
             "Altered = independent bitwise CRC-32C of the payload differs from the stored checksum; header()/raw_xml on a damaged page 0 not judged.",
             SIM + "stored-byte fault enumeration (all single-bit flips) and seeded alterations at seeded instants x reader histories x both CRC back ends", "DESIGN.md §5 C07"),
     "C08": (True, "exploration",
-            "Structure-aware corruption plans (header, XML numbers/attributes/structure incl. NaN/inf/extremes/DTD, section and packet headers, stream lengths, payload bits; sealed or unsealed; stale/misdirected pages, truncation, extension), applied before open or between operations, drive every reading entry point in child processes built with overflow checks; a panic (catch_unwind), abort or hang of the child is attributed to the run in flight. 16 (thorough: 64) run indices enumerate exhaustively the tree-level XML mutations of one rich file (every element dropped, every numeric leaf/attribute at each extreme text, every pair element dropped x numeric sibling extreme).",
+            "Structure-aware corruption plans (header, XML numbers/attributes/structure incl. NaN/inf/extremes/DTD, section and packet headers, stream lengths, payload bits; sealed or unsealed; stale/misdirected pages, truncation, extension), applied before open or between operations, drive every reading entry point in child processes built with overflow checks; a panic (catch_unwind), abort or hang of the child is attributed to the run in flight. 16 (thorough: 64) run indices enumerate exhaustively the tree-level XML mutations of one rich file (every element dropped, every numeric leaf/attribute at each extreme text, every pair element dropped x numeric sibling extreme). Number texts include long unparseable strings with multi-byte characters at drawn byte positions; header mutations include consistent two-field lies (huge XML length covered by the stated file length).",
             "'All byte strings' is explored by mutation of valid files located with refcodec's map; sampling only.",
             SIM + "seeded media/producer corruption at seeded instants x all entry points, panic/abort oracle in child processes", "DESIGN.md §5 C08"),
     "C09": (True, "exploration",
@@ -64,15 +64,15 @@ CHECKS = {
             "Trusts the tri-state model of the documented rules; bounds not compared. Known finding F10 listed.",
             SIM + "seeded API-call programs incl. invalid calls and abandoned sub-writers vs. accept/reject model and read-back", "DESIGN.md §5 C10"),
     "C19": (True, "exploration",
-            "read -> write -> read -> write -> read pipelines over simulated disks (sources: 19 bundled files, writer-made and producer-made files), every stage under its own chunk schedule, every write executed twice: copies must equal the original in content, the copy of the copy must equal the copy in content and bytes, double writes must be byte-identical.",
+            "read -> write -> read -> write -> read pipelines over simulated disks (sources: 19 bundled files, writer-made and producer-made files), every stage under its own chunk schedule, every write executed twice: copies must equal the original in content, the copy of the copy must equal the copy in content and bytes, double writes must be byte-identical. Every sixteenth generated source carries content beyond small-test scale: a cloud of several real 64 KiB packets with mixed odd bit widths (the copy is written at the library's own packet capacity) and an image payload of 64 KiB or more.",
             "Compared is what the writer API can express (see evidence assumptions).",
             SIM + "multi-stage copy pipelines over three simulated disks with independent chunk schedules; byte-determinism across schedules", "DESIGN.md §5 C19"),
     "C20": (True, "exploration",
-            "Tool processes built from the workspace run in a private /dev/shm directory: XYZ -> e57-from-xyz -> [stored-byte fault] -> e57-check-crc / e57-to-xyz, and generator-made E57 files (intact or damaged) -> e57-check-crc / e57-extract-xml / e57-unpack; outputs compared with the inputs and with the library's own results.",
+            "Tool processes built from the workspace run in a private /dev/shm directory: XYZ -> e57-from-xyz -> [stored-byte fault] -> e57-check-crc / e57-to-xyz, and generator-made E57 files (intact or damaged) -> e57-check-crc / e57-extract-xml / e57-unpack; outputs compared with the inputs and with the library's own results. Every eighth run feeds e57-from-xyz an input of about 1.1 MiB whose line ends are swept over every position relative to the 1 MiB border of a block-wise reader.",
             "Weakest fit of the technique: only the stored bytes between process stages are under the simulator's control; GUIDs from uuid are outside the observed outputs.",
             SIM + "process-level pipelines with seeded inputs and stored-byte faults between stages", "DESIGN.md §5 C20"),
     "C17": (True, "exploration",
-            "Seeded histories of 2-12 read operations (early-terminated iterators, blobs into chunked sinks) on one open reader over writer-made files, optionally with static damage (unsealed pages / resealed section headers) and transient device faults (hard error, short-then-error, TimedOut/WouldBlock/Interrupted and other kinds; up to three, or one in every operation) placed inside operations; every sixteenth run is a long sequential scan of 64..130 pages followed by a short neighbour with a damaged page behind it; every operation is compared with the same operation on a freshly opened reader over the same bytes, a faulted one also with a fresh reader that meets the same fault at its first read of the same page.",
+            "Seeded histories of 2-12 read operations (early-terminated iterators, blobs into chunked sinks) on one open reader over writer-made files, optionally with static damage (unsealed pages / resealed section headers) and transient device faults (hard error, short-then-error, TimedOut/WouldBlock/Interrupted and other kinds; up to three, or one in every operation) placed inside operations; every sixteenth run is a long sequential scan of 64..130 pages followed by a short neighbour with a damaged page behind it; every operation is compared with the same operation on a freshly opened reader over the same bytes, a faulted one also with a fresh reader that meets the same fault at its first read of the same page. Some blob extractions have failing sinks; iterators are polled again after their first error and what they hand out then belongs to the result.",
             "Fresh-reader oracle; errors compared as is-Err; iterators driven to first Err/None.",
             SIM + "seeded reader histories with transient device faults and static damage vs. fresh-reader oracle", "DESIGN.md §5 C17"),
 }
